@@ -35,7 +35,17 @@ def main():
     try:
         if a.replay:
             obj = json.load(open(a.replay))
-            rule = mod.replay(ctx, obj)
+            try:
+                rule = mod.replay(ctx, obj)
+                understood = ctx.evaluations > 0 or bool(ctx.violations)
+            except (KeyError, TypeError, AttributeError, IndexError):
+                understood = False
+            if not understood:
+                # a replay object of a stream that has no targeted replay (or an obligation-level one): the deterministic full run at the
+                # recorded seed and tier re-creates the same cases
+                ctx = common.Ctx(a.prop, obj.get('tier', tier) if isinstance(obj, dict) else tier, obj.get('seed', seed) if isinstance(obj, dict) else seed)
+                ctx.notes.append('replay object not handled by the targeted replay: full run at the recorded seed')
+                rule = mod.run(ctx)
         else:
             rule = mod.run(ctx)
     except Exception:  # noqa: BLE001 - a crash of the harness means the property is no longer shown to hold on this tree
